@@ -1,6 +1,6 @@
 """Case generator for C10 (Partially_Reduced_Product). Deterministic for a given seed.
 
-Three families, each over every (pair, policy):
+Families, each over every (pair, policy) (plus `period`, see period_case: grids with non-integral periods):
   shrink  -- a grid with one or two proper congruences against a component bounded in the direction of the
              congruence; the width of the range relative to the modulus is drawn from the case splits of
              shrink_to_congruence_no_check (no hyperplane / exactly one / two / the `== 2*mod` boundary, with
@@ -252,6 +252,79 @@ def shrink_case(r, cid, pair, pol):
     return lines
 
 
+def period_case(r, cid, pair, pol):
+    """Congruences / Shape_Preserving reductions against grids with NON-INTEGRAL periods: congruences k*x_i = r0 (mod m)
+    with non-unit k (k does not divide m: grid points (r0 + m*j)/k have divisors 2, 3, 5, ...), optionally a mixed congruence
+    with non-unit coefficients; the other component bounds each such variable by rational bounds placed relative to the
+    grid hyperplanes v_j = (r0 + m*j)/k: strictly between two of them, around exactly one, exactly on them (open / closed
+    ends for NNC and boxes), over several periods, or one-sided; located below zero, across zero or above; plus
+    octagonal / general constraints in 2-3 dimensions."""
+    from fractions import Fraction as F
+    kinds = KINDS[pair]
+    gi = 1 if kinds[0] == "G" else 2
+    oi = 3 - gi
+    ok = kinds[oi - 1]
+    dim = r.choice([1, 1, 1, 2, 2, 3])
+    strict_ok = ok in ("N", "B")
+    gs, cs = [], []
+    feas = []                          # one grid value per variable (to aim the extra constraints at)
+    some = False
+    for i in range(dim):
+        if dim > 1 and some and r.random() < 0.25:
+            feas.append(F(r.randint(-3, 3))); continue
+        some = True
+        k = r.choice([2, 3, 3, 5, 4, 6, -3, -2, 7, 3, 5])
+        m = r.choice([1, 2, 2, 3, 4, 5, 7, 1, 2])
+        r0 = r.randint(-6, 6)
+        a = [0] * dim; a[i] = k
+        gs.append(cg(m, -r0, a))       # k*x_i - r0 = 0 (mod m)
+        per = F(m, abs(k))
+        j0 = r.randint(-8, 6)
+        v = lambda j: F(r0 + m * j, k) if k > 0 else F(r0 - m * j, k)   # increasing in j for both signs
+        v0 = F(r0, k) + j0 * per
+        feas.append(v0)
+        wc = r.choice(["between", "between", "one", "one", "on", "on", "multi", "multi", "lower", "upper", "point"])
+        t = lambda: r.choice([F(1, 4), F(1, 2), F(3, 4), F(1, 3), F(2, 3), F(1, 5)])
+        if wc == "between": lo, hi = v0 + t() * per * F(1, 2), v0 + per - t() * per * F(1, 2)
+        elif wc == "one": lo, hi = v0 - t() * per, v0 + t() * per
+        elif wc == "on": lo, hi = v0, v0 + r.choice([1, 1, 2]) * per
+        elif wc == "multi": lo, hi = v0 - t() * per, v0 + (r.randint(1, 4) + t()) * per
+        elif wc == "lower": lo, hi = v0 - t() * per, None
+        elif wc == "upper": lo, hi = None, v0 + t() * per
+        else: lo = hi = v0 + r.choice([0, 0, t()]) * per
+        if lo is not None:
+            kl = ">" if strict_ok and r.random() < 0.4 and lo != hi else ">="
+            u = unit_scaled = [0] * dim; u[i] = lo.denominator
+            cs.append(con(kl, -lo.numerator, u))               # den*x_i - num >= 0
+        if hi is not None:
+            ku = ">" if strict_ok and r.random() < 0.4 and lo != hi else ">="
+            u = [0] * dim; u[i] = -hi.denominator
+            cs.append(con(ku, hi.numerator, u))                # num - den*x_i >= 0
+    if dim > 1 and r.random() < 0.35:
+        a = [r.choice([2, 3, -2, -3, 5, 1, -1, 0]) for _ in range(dim)]
+        if any(a): gs.append(cg(r.choice([2, 3, 4, 5]), r.randint(-3, 3), a))
+    if dim > 1 and ok != "B" and r.random() < 0.6:
+        # octagonal or general constraint, loosely around the chosen grid values
+        i, j = r.sample(range(dim), 2)
+        a = [0] * dim
+        if ok == "S" or r.random() < 0.5: a[i], a[j] = r.choice([1, -1]), r.choice([1, -1])
+        else: a = rvec(r, dim)
+        val = sum(F(x) * y for x, y in zip(a, feas))
+        dn = val.denominator
+        b = -val.numerator + r.choice([0, 0, 1, 2, -1]) * 1
+        cs.append(con(">" if strict_ok and ok == "N" and r.random() < 0.3 else ">=", b, [dn * x for x in a]))
+    lines = ["case %s %s %s" % (cid, pair, pol), "new 0 %d universe" % dim]
+    lines.append("set 0 %d %s %s" % (gi, cons_list([]), cgs_list(gs)))
+    lines.append("set 0 %d %s %s" % (oi, cons_list(cs), cgs_list([])))
+    lines.append("copy 1 0")
+    lines.append("red 0")
+    lines.append(r.choice(["qry 0 is_empty", "qry 0 is_empty", "qry 0 domains", "qry 0 constraints", "qry 0 minimize " + rand_expr(r, dim)]))
+    lines.append("red 0")
+    lines.append("qry 1 %s" % r.choice(["is_empty", "is_empty", "contains 0", "is_disjoint_from 0", "maximize " + rand_expr(r, dim)]))
+    lines.append("end")
+    return lines
+
+
 def reduce_case(r, cid, pair, pol):
     kinds = KINDS[pair]
     dim = r.choice([1, 2, 2, 2, 3])
@@ -319,7 +392,7 @@ def exchange_case(r, cid, pair, pol):
     return lines
 
 
-def make_cases(seed, n_shrink, n_reduce, n_ops, steps=5, start=0):
+def make_cases(seed, n_shrink, n_reduce, n_ops, steps=5, start=0, n_period=None):
     r = random.Random(seed)
     out = []
     cid = start
@@ -335,6 +408,11 @@ def make_cases(seed, n_shrink, n_reduce, n_ops, steps=5, start=0):
     for i in range(n_ops):
         pair = PAIRS[k % len(PAIRS)]; pol = POLICIES[(k // len(PAIRS) + i) % len(POLICIES)]; k += 1
         out += ops_case(r, "o%d" % cid, pair, pol, steps); cid += 1
+    # non-integral periods: its own random stream, so that the other families stay as they were
+    rp = random.Random(seed * 7 + 3)
+    per_pairs = ["CG", "NG", "GC", "CG", "NG", "BG", "GC"]
+    for i in range(n_shrink if n_period is None else n_period):
+        out += period_case(rp, "p%d" % cid, per_pairs[i % len(per_pairs)], rp.choice(["P", "P", "P", "G", "G", "K", "S"])); cid += 1
     cons_pairs = ["CN", "NN", "BC", "SC", "CN", "NN"]
     for i in range(n_reduce // 2):
         out += exchange_case(r, "x%d" % cid, cons_pairs[i % len(cons_pairs)], r.choice(["K", "K", "P"])); cid += 1
